@@ -128,13 +128,16 @@ struct Engine {
 	int honest_successes = 0, honest_queries = 0;
 	// reader battery (C06 tier A / A', C04 downstream asserts)
 	bool reload_active = false, in_battery = false;
+	bool reload_cr = false; // the reload window was opened by a Cache Reset (stays open across NO_INCR_UPDATE_AVAIL -> RESET -> SYNC)
 	std::vector<std::string> seq_pfx, seq_spki;
 	pthread_t fsm_thread;
 	bool have_fsm_thread = false;
 	int lock_depth = 0;
 	long battery_samples = 0;
 	// threads
-	sem_t sem_main, sem_park;
+	sem_t sem_main, sem_park, sem_mid;
+	long midstop_countdown = 0; // C07: rtr_stop() arrives at the n-th transport call / table-lock release of the exchange in progress (cancellation disabled there)
+	bool midstop_active = false;
 	std::vector<int> state_seq;
 	std::ostringstream trace;
 	int n_success = 0, n_queries = 0;
@@ -194,6 +197,8 @@ static void model_off() // no adoption possible: switch the data model off for t
 static void TR(const std::string &s)
 {
 	if (E->opt.trace && E->trace.tellp() < 6000) E->trace << "[t=" << (long)(E->now - 1000000) << "] " << s << "\n";
+	static const bool live = getenv("VERIF_TRACE_LIVE") != nullptr;
+	if (live) fprintf(stderr, "[t=%ld] %s\n", (long)(E->now - 1000000), s.c_str());
 }
 static void CLS(const char *c, long n = 1) { E->rep.cls[c] += n; }
 
@@ -321,7 +326,7 @@ static void snap_cb(const struct pfx_record *r, void *d)
 static Snapshot snapshot()
 {
 	Snapshot s;
-	struct NoFail { long save; NoFail() : save(L.fail_at) { L.fail_at = 0; } ~NoFail() { L.fail_at = save; } } nofail; // the harness's own lookups are not fault targets
+	struct NoFail { long save; bool ib; NoFail() : save(L.fail_at), ib(E->in_battery) { L.fail_at = 0; E->in_battery = true; } ~NoFail() { L.fail_at = save; E->in_battery = ib; } } nofail; // (in_battery: the lock wrappers ignore the harness's own table accesses) // the harness's own lookups are not fault targets
 	pfx_table_for_each_ipv4_record(&E->pfx, snap_cb, &s);
 	pfx_table_for_each_ipv6_record(&E->pfx, snap_cb, &s);
 	for (int k = 0; k < 3; k++) {
@@ -347,7 +352,7 @@ static Snapshot snapshot()
 static void raw_cb(const struct pfx_record *r, void *d) { if (r->socket == &E->sock) ++*(long *)d; }
 static long raw_count_mine()
 {
-	struct NoFail { long save; NoFail() : save(L.fail_at) { L.fail_at = 0; } ~NoFail() { L.fail_at = save; } } nofail;
+	struct NoFail { long save; bool ib; NoFail() : save(L.fail_at), ib(E->in_battery) { L.fail_at = 0; E->in_battery = true; } ~NoFail() { L.fail_at = save; E->in_battery = ib; } } nofail; // (in_battery: the lock wrappers ignore the harness's own table accesses)
 	long n = 0;
 	pfx_table_for_each_ipv4_record(&E->pfx, raw_cb, &n);
 	pfx_table_for_each_ipv6_record(&E->pfx, raw_cb, &n);
@@ -380,7 +385,7 @@ static void pfx_cb(struct pfx_table *t, const struct pfx_record rec, const bool 
 	int id = pfx_to_id(&rec);
 	int src = rec.socket == &E->sock ? 0 : rec.socket == &E->other ? 1 : -1;
 	if (id < 0 || src < 0) { if (!E->weak && !E->mirror_bad) { E->mirror_bad = true; E->mirror_msg = "prefix callback for a record nobody announced"; } return; }
-	if (E->reload_active && E->lock_depth == 0) sample_battery(); // some paths notify while holding the table lock
+	if (E->reload_active && E->lock_depth == 0 && E->have_fsm_thread && pthread_equal(pthread_self(), E->fsm_thread)) sample_battery(); // some paths notify while holding the table lock
 	bool ok = added ? E->pfx_mirror.insert({id, src}).second : E->pfx_mirror.erase({id, src}) == 1;
 	if (!ok && !E->mirror_bad) {
 		E->mirror_bad = true;
@@ -393,7 +398,7 @@ static void spki_cb(struct spki_table *t, const struct spki_record rec, const bo
 	int id = key_to_id(&rec);
 	int src = rec.socket == &E->sock ? 0 : rec.socket == &E->other ? 1 : -1;
 	if (id < 0 || src < 0) { if (!E->weak && !E->mirror_bad) { E->mirror_bad = true; E->mirror_msg = "router-key callback for a key nobody announced"; } return; }
-	if (E->reload_active && E->lock_depth == 0) sample_battery();
+	if (E->reload_active && E->lock_depth == 0 && E->have_fsm_thread && pthread_equal(pthread_self(), E->fsm_thread)) sample_battery();
 	bool ok = added ? E->spki_mirror.insert({id, src}).second : E->spki_mirror.erase({id, src}) == 1;
 	if (!ok && !E->mirror_bad) {
 		E->mirror_bad = true;
